@@ -23,7 +23,7 @@ from props import _c03_world as W  # noqa: E402  (no psutil import at module lev
 # ------------------------------------------------------------------ model scripts per public method
 SCRIPTS = {
     "name": "f_name", "exe": "f_exe", "cmdline": "i_cmdline", "environ": "(i_file FEnviron)", "cwd": "i_cwd",
-    "status": "f_status", "ppid": "f_ppid", "create_time": "f_create_time", "terminal": "i_stat_based",
+    "status": "f_status", "ppid": "f_ppid", "create_time": "f_create_time", "terminal": "i_terminal",
     "username": "f_uids", "uids": "f_uids", "gids": "i_status_based", "cpu_times": "f_cpu_times",
     "cpu_num": "i_stat_based", "cpu_percent": "i_stat_based", "memory_info": "f_memory_info",
     "memory_full_info": "i_memory_full_info", "memory_percent": "f_memory_info", "memory_maps": "i_memory_maps",
@@ -58,7 +58,7 @@ TRUSTED = ["correspondence harness props/C03.py + props/_c03_world.py (fake proc
 ASSUMPTIONS = ["the first read of an opened procfs file is the only read access point (files are read with one read(2) into a "
                "32 KiB buffer); partial reads are outside the fault model",
                "data returned by a successful access is well formed (parsing of malformed content is C06/C12/C13/C14)",
-               "refusals (EACCES/EPERM) are injected on per-process paths only, not on global procfs files",
+               "refusals (EACCES/EPERM) are injected on every access of the call -- per-process procfs paths of any pid and the files outside procfs (link targets, '(deleted)' paths, cmdline[0], tty nodes) -- except the global procfs files (/proc, /proc/net/*) and the /dev listing",
                "CPython exception matching and the os/io layer are modelled, not verified"]
 EXHAUSTIVE = {"quick": "all access indexes x {vanish, EACCES} (EPERM at every fourth index) for every scripted and oracle-only method and all four base kinds",
               "thorough": "the same plus all two-fault sequences (deny at i, vanish at j>i)"}
@@ -73,12 +73,13 @@ def _g_strs(l):
 
 
 def layout_term():
-    cls = {"reg": "LReg", "sock": "LSock", "pipe": "LOtherLink", "other": "LOtherLink"}
+    cls = {"reg": "LReg", "sock": "LSock", "pipe": "LOtherLink", "absother": "LAbsOther"}
     fds = "[" + "; ".join("(%s, %s)" % (_g_str(n), cls[c]) for n, c in W.FDS) + "]"
     pids = sorted([W.PID, W.PPID, W.CHILD, W.CHILD2, W.OTHER])
-    return ("(Build_layout %s %s %s %s %s %s %s %s %s)" % (
+    return ("(Build_layout %s %s %s %s %s %s %s %s %s %s %s %s)" % (
         _g_str(W.PID), _g_str(W.PPID), fds, _g_strs(W.TASKS), _g_strs([str(p) for p in pids]),
-        _g_strs([str(W.CHILD), str(W.CHILD2)]), _g_strs([str(W.CHILD2)]), _g_str(W.RACE_FD), _g_str(W.RACE_TASK)))
+        _g_strs([str(W.CHILD), str(W.CHILD2)]), _g_strs([str(W.CHILD2)]), _g_str(W.RACE_FD), _g_str(W.RACE_TASK),
+        _g_str(W.DEL_FD), _g_strs(W.MAPS_DEL), _g_strs(W.DEVS)))
 
 
 LAYOUT = layout_term()
@@ -102,7 +103,7 @@ def coq_term(case):
         return "JL []"
     v = "None" if case.get("v") is None else "(Some %d%%nat)" % case["v"]
     den = "[" + "; ".join("%d%%nat" % k for k, _ in case.get("d", [])) + "]"
-    return "run_case %s %s %d%%nat %s %s true false" % (LAYOUT, sc, KIND_NO[case["base"]], v, den)
+    return "run_case %s %s %d%%nat %s %s true true" % (LAYOUT, sc, KIND_NO[case["base"]], v, den)
 
 
 def coq_struct(case, raw):
